@@ -289,11 +289,22 @@ def drive_metropolis(item):
 
     starts = [np.asarray(code.logicals_x[0]).astype(np.uint8), np.asarray(code.logicals_z[0]).astype(np.uint8)]
     cur = starts[seed % 2].copy()
+    deep = str(tier).startswith('deep-')
+    if deep:
+        tier = tier[5:]
+        # half the qubits carry the cheapest letter, half the dearest: >= 2000 bits
+        cheap = min(range(3), key=lambda j: exps[j])
+        dear = max(range(3), key=lambda j: (exps[j] < INF, exps[j]))
+        cur = np.zeros(2 * n, dtype=np.uint8)
+        for q_ in range(n):
+            l_ = 'XYZ'[cheap if q_ % 2 == 0 else dear]
+            cur[q_] = l_ in 'XY'
+            cur[n + q_] = l_ in 'YZ'
     obs = []
     real = np.random.choice
     np.random.choice = choice
     try:
-        for t in range(40 if tier == 'quick' else 300):
+        for t in range((40 if tier == 'quick' else 300) if not deep else 16):
             script.clear()
             script.update(q=int(rng.integers(n)), letter=int(rng.integers(3)),
                           coin=bool(rng.random() < 0.8))
@@ -386,6 +397,11 @@ def run(tier):
         for dn, kw in (vs[:1] + vs[-1:]):
             for exps in [(2, 3, 3), (3, 2, 3), (3, 3, 2), (2, 2, INF), (INF, 2, 2), (1, INF, INF)][:: (2 if tier == 'quick' else 1)]:
                 mjobs.append((name, size, dn, kw, exps, tier, common.seed() + k + len(mjobs)))
+    # the deep tail: a heavy error on a large lattice, where the likelihood of the
+    # whole error is far below the smallest float (2^-1074) - the ratio of two
+    # such likelihoods is still an ordinary number and is what the step must use
+    for k, exps in enumerate([(2, 3, 3), (3, 2, 3)] if tier == 'quick' else [(2, 3, 3), (3, 2, 3), (3, 3, 2)]):
+        mjobs.append(('Toric2DCode', (20, 20), None, {}, exps, 'deep-' + tier, common.seed() + 900 + k))
     recs += common.pmap(drive_metropolis, mjobs, procs=15)
     recs = common.split_raised('C18', v, recs)
     for j, r in enumerate(recs):
